@@ -10,7 +10,7 @@ RULE = ("(a) call level: every 'entailed' answer of the exhaustive small scope a
         "cleared by an entailment answer of that very constraint in that pass; (c) differential: the same model is "
         "re-run with every entailment answer downgraded to 'consistent' and must yield the same solution multiset. "
         "distinct = distinct (type, box, params) resp. (model, cfg); non-trivial = an entailment answer was checked "
-        "resp. a flag was cleared and a backtrack happened")
+        "resp. a flag was cleared and a backtrack happened; (d) at every restart of an optimisation all constraints must be enabled again")
 
 
 def main(tier, seed):
@@ -19,7 +19,8 @@ def main(tier, seed):
         rep.inconclusive.append("JIT cache warm-up failed")
     cjobs = callfamily.build_jobs("C07", tier, seed, O.ENTAIL_TYPES, zero_cap_stream=False)
     saved_types = None
-    mjobs = modelfamily.build_jobs("C07", tier, seed, do=["enum"], monitors=["budget", "flags", "branch", "calls"],
+    mjobs = modelfamily.build_jobs("C07", tier, seed, do=["enum", "opt"],
+                                   monitors=["budget", "flags", "branch", "calls", "opthist"],
                                    jit_share=0.0, njobs=8, per_job=30 if tier == "quick" else 500,
                                    configs_per_model=2,
                                    task_extra={"downgrade": True, "nontrivial": "entailment"})
@@ -34,6 +35,7 @@ def main(tier, seed):
     rep.need("flags.entailment_answers", 500, "flag monitor")
     rep.need("branch.restores_compared", 1000, "restore monitor")
     rep.need("runs_downgrade", 200, "downgrade differential")
+    rep.need("opthist.resets", 200, "re-enabling at optimisation restarts")
     ent_types = [k for k in rep.counters if k.startswith("status.") and k.endswith(":2")]
     rep.counters["types_seen_answering_entailment"] = len(ent_types)
     if len(ent_types) < len(O.ENTAIL_TYPES):
